@@ -533,7 +533,7 @@ def run_bulk_n3(chk, stats, nproc=14):
     return n
 
 
-KNOWN_IDS = ('C13-no-pivoting', 'C13-abs-pivot-tol', 'C13-closed-form-eig')
+KNOWN_IDS = ('C13-abs-pivot-tol', 'C13-closed-form-eig')
 
 
 def violation(chk, what, obj):
@@ -605,8 +605,8 @@ def selftest(chk):
              and c['form'] == 'py']
     by = {c['id']: c for c in cases}
     bad = 0
-    for mutant, expect in (('pivot-fix', 'clean'),
-                           ('full-fix', 'allclean'),
+    for mutant, expect in (('no-exchange', 'violations'),
+                           ('reltol-fix', 'allclean'),
                            ('matmul-transposed', 'violations'),
                            ('backsub-sign', 'violations'),
                            ('aug-stride', 'violations')):
@@ -615,20 +615,19 @@ def selftest(chk):
         verdicts, st = validate(chk, list(traces.values()), tag=mutant + '-')
         failed = [v for v in verdicts if v['failed']]
         abst = [v for v in failed if 'C13-abs-pivot-tol' in v['known']]
-        nopiv = [v for v in failed if 'C13-no-pivoting' in v['known']
-                 and 'C13-abs-pivot-tol' not in v['known']]
         other = [v for v in failed if not v['known']]
-        if expect == 'clean':
-            good = not nopiv and not other
-        elif expect == 'allclean':
+        nopiv = [v for v in other if v['cls'] == 'needs_row_exchange']
+        if expect == 'allclean':
             good = not failed
+        elif mutant == 'no-exchange':
+            good = bool(nopiv) and len(nopiv) == len(other)
         else:
             good = bool(other)
-        print('SELFTEST mutant=%s: %d cases, %d failed (%d no-pivoting '
-              'signature only, %d abs-pivot-tol signature, %d other) -> %s'
-              % (
-                  mutant, len(verdicts), len(failed), len(nopiv), len(abst),
-                  len(other), 'as expected' if good else 'UNEXPECTED'))
+        print('SELFTEST mutant=%s: %d cases, %d failed (%d masked by the '
+              'abs-pivot-tol signature, %d unmasked = VIOLATIONs, of which '
+              '%d need a row exchange) -> %s' % (
+                  mutant, len(verdicts), len(failed), len(abst), len(other),
+                  len(nopiv), 'as expected' if good else 'UNEXPECTED'))
         if other[:1]:
             v = other[0]
             print('   e.g. %s %s' % (json.dumps(by[v['id']])[:300],
